@@ -597,7 +597,8 @@ def Status.alive : Status → Bool
 structure St where
   doc : T            -- obj._vals_[attr]
   dirty : Bool       -- attr's bit in obj._wbits_  (obj._wbits_ is None while the object is 'created')
-  db : T             -- the column in the database (for a 'created' object: nothing yet)
+  db : T             -- the column in the database as this transaction sees it (for a 'created' object: nothing yet)
+  committed : T      -- the column as committed last (what every other transaction sees; what a rollback goes back to)
   status : Status    -- obj._status_
   volatile : Bool    -- the attribute was declared volatile=True
   deriving Repr, Inhabited
@@ -623,6 +624,8 @@ inductive Op where
   | refresh (v : T)                 -- volatile attribute after a save: `_update_dbvals_` drops the value, the next access reads it
                                     -- again from the database, which returns `v`
   | reload (v : T)                  -- commit, end of session; a new session reads the value: the database returns `v`
+  | commit                          -- commit(): flush, then the transaction's view becomes the committed one
+  | rollback                        -- rollback(): what was flushed but not committed is gone; the session's objects are dead
   | endSession                      -- commit, end of session; the program keeps the object and its wrappers
   | delete                          -- obj.delete()
   deriving Repr, Inhabited
@@ -635,11 +638,11 @@ def assigned (cfg : Cfg) : T → T
   | v => make cfg v
 
 def St.load (cfg : Cfg) (dbv : T) (vol : Bool := false) : St :=
-  { doc := make cfg dbv, dirty := false, db := dbv, status := .loaded, volatile := vol }
+  { doc := make cfg dbv, dirty := false, db := dbv, committed := dbv, status := .loaded, volatile := vol }
 
 /-- `E(attr=v)`: `validate` wraps the value; the object is 'created', `_wbits_` is None, there is no row yet -/
 def St.create (cfg : Cfg) (v : T) (vol : Bool := false) : St :=
-  { doc := assigned cfg v, dirty := false, db := .atom .null, status := .created, volatile := vol }
+  { doc := assigned cfg v, dirty := false, db := .atom .null, committed := .atom .null, status := .created, volatile := vol }
 
 /-- `_save_created_` writes every value, `_save_updated_` the columns whose bit is set -/
 def doFlush (s : St) : St :=
@@ -685,7 +688,9 @@ def step (cfg : Cfg) (s : St) : Op → St × Option Err
   | .assign v => if s.status.alive then (attrChanged { s with doc := assigned cfg v }, none) else (s, some (deadErr s))
   | .other => if s.status.alive then (if s.status != .created then { s with status := .modified } else s, none) else (s, some (deadErr s))
   | .flush => (doFlush s, none)
-  | .endSession => if s.status.alive then ({ doFlush s with status := .over }, none) else (s, some (deadErr s))
+  | .commit => ({ doFlush s with committed := (doFlush s).db }, none)
+  | .rollback => if s.status.alive then ({ s with db := s.committed, dirty := false, status := .over }, none) else (s, none)
+  | .endSession => if s.status.alive then ({ doFlush s with status := .over, committed := (doFlush s).db }, none) else (s, some (deadErr s))
   | .delete => if s.status.alive then ({ s with status := .deleted, dirty := false }, none) else (s, some (deadErr s))
   | .refresh v =>
       if s.volatile && !s.dirty && s.status != .created && s.status.alive && isPlain v && sameJson v s.db
